@@ -580,6 +580,56 @@ fn fastload(out: &mut Out, r: &mut Rng, tapes: u64, m128_too: bool) {
     }
 }
 
+/// The fast-load shortcut is an emulator device, not Z80 code: whatever emulated time it takes, it takes the same time
+/// wherever the data goes. Two fresh machines at the same moment of their frame serve the same request from the same
+/// tape, one with its data in contended RAM, the other in uncontended RAM: they come back at the same moment.
+fn trap_durations(out: &mut Out, r: &mut Rng, pairs: u64) {
+    for pi in 0..pairs {
+        let m128 = pi % 3 == 2;
+        let frame = if m128 { FRAME_128 } else { FRAME_48 };
+        let dl = 16 + r.below(40) as usize;
+        let data = r.bytes(dl);
+        let blk = good_block(0xFF, &data);
+        let t = r.below(frame as u64 - 2000) as usize;
+        let load = pi % 2 == 0;
+        let seed = r.next();
+        let mut results = vec![];
+        for ix in [0x6000u16, 0x9000] {
+            let mut cfg = EmuCfg::new(m128);
+            cfg.fastload = true;
+            let mut emu = cfg.build();
+            if m128 {
+                page_rom1(&mut emu);
+            }
+            emu.load_tape(Tape::Tap(DynAsset::mem(tap_bytes(&[blk.clone()])))).expect("load_tape");
+            emu.verif_wait(t);
+            // (caller and stack in uncontended RAM, so that nothing on the way back hides a difference)
+            let _ = seed;
+            if !load {
+                for (k, v) in data.iter().enumerate() {
+                    emu.verif_bus_write(ix + k as u16, *v);
+                }
+            }
+            poke_bytes(&mut emu, 0xB000, &[0xCD, 0x56, 0x05]);
+            {
+                let cpu = emu.verif_cpu();
+                cpu.regs.set_sp(0xBFFE);
+                cpu.regs.set_pc(0xB000);
+                cpu.regs.set_af(0xFF00 | load as u16);
+                cpu.regs.set_ix(ix);
+                cpu.regs.set_de(data.len() as u16);
+                cpu.regs.set_iff1(false);
+                cpu.regs.set_iff2(false);
+                cpu.halted = false;
+            }
+            let (done, frames_taken) = run_to_count(&mut emu, 0xB003, 20);
+            let carry = emu.verif_cpu().regs.get_flags() & 1;
+            results.push(json!([done, carry, frames_taken, emu.verif_frame_clocks()]));
+        }
+        out.ev(json!({"ev":"trapdur","m": if m128 {128} else {48},"t":t,"load":load,"len":data.len(),"contended":results[0],"uncontended":results[1]}));
+    }
+}
+
 /// A request with no block left. The trap fires after `CP A` at 0x056A; the CPU state after that
 /// step must be what the ROM code alone produces (fast loading switched off), and the request
 /// must not complete successfully.
@@ -864,6 +914,7 @@ pub fn run(args: &Args) {
     waveform(&mut out, &mut r, args.num("waveform", 0));
     commands(&mut out, &mut r, args.num("commands", 0), args.num("len", 12));
     fastload(&mut out, &mut r, args.num("fastload", 0), true);
+    trap_durations(&mut out, &mut r, args.num("trapdur", 0));
     romload(&mut out, &mut r, args.num("romload", 0));
     emudeck(&mut out, &mut r, args.num("emudeck", 0));
     let n = out.finish();
